@@ -295,6 +295,8 @@ def evaluate__substring(self: XPathFunction, context: ta.ContextType = None) -> 
     item: str = self.get_argument(context, default='', cls=str)
     try:
         start = self.get_argument(context, index=1, required=True)
+        if isinstance(start, int):
+            start = get_double(start)  # the parameter is an xs:double
         if math.isnan(start) or math.isinf(start):
             return ''
     except (TypeError, ValueError):
@@ -310,6 +312,8 @@ def evaluate__substring(self: XPathFunction, context: ta.ContextType = None) -> 
     else:
         try:
             length = self.get_argument(context, index=2, required=True)
+            if isinstance(length, int):
+                length = get_double(length)
             if math.isnan(length) or length <= 0:
                 return ''
         except (TypeError, ValueError):
@@ -479,7 +483,7 @@ def evaluate__ceiling_and_floor_functions(self: XPathFunction, context: ta.Conte
     try:
         if not isinstance(arg, (int, float, decimal.Decimal)):
             raise TypeError(f"invalid argument type {type(arg)!r}")
-        elif math.isnan(arg) or math.isinf(arg):
+        elif isinstance(arg, int) or math.isnan(arg) or math.isinf(arg):
             return arg
 
         if self.symbol == 'floor':
